@@ -276,8 +276,8 @@ def rule_byvalue(ctx):
         a = cov.as_atom()
         if a is not None and a.kind == "filter":
           n += 1
-          cond = repr(a.args[1])
-          if "'curve_type'" not in cond or "key(ref('ec_util.CURVE_FACTORY')" not in cond or "'Eq'" not in cond:
-            probs.append("%s: partition is not `curve_type == curve_id` over CURVE_FACTORY.items()" % b.where())
+          K = T.partition_key(a, b.artifacts)
+          if K is None or T.partition_key_source(K, b.artifacts) is None:
+            probs.append("%s: partition is not `curve_type == curve id` with the id ranging over the factory's keys or the batch's curve types" % b.where())
   ctx.record(R, "check bodies", "per-curve partitions are disjoint filters mapped back by index", not probs and n >= 4, "; ".join(sorted(set(probs))) or
              "%d partitioned result loops: filter on curve_type == key of the factory, results indexed by the partition's own enumeration" % n)
